@@ -61,6 +61,11 @@ let () =
         if mode = "5" then Printf.printf "E %s\n" (hex_of_bytes (Constpool.cp_fill !pool))
         else
           let (lab, fin) = Constpool.embed_layout (cz_of_string pre) !pool in
+          if mode = "4" then
+            (* logged embed: the model also predicts the item width and count of the data directives (log_layout, C19_log_layout) *)
+            let (w, c) = Constpool.log_layout !pool in
+            Printf.printf "E %s %s %s L%sx%s\n" (hex_of_bytes (Constpool.cp_fill !pool)) (string_of_cz lab) (string_of_cz fin) (string_of_cz w) (string_of_cz c)
+          else
           Printf.printf "E %s %s %s\n" (hex_of_bytes (Constpool.cp_fill !pool)) (string_of_cz lab) (string_of_cz fin)
       | "j" :: _ -> tr := []; print_endline "j"
       | "a" :: size :: hex :: "ok" :: off :: _ ->
